@@ -211,6 +211,7 @@ func genTracerCase(r *Rng, em *Emitter, length int, al *tracerAlphabet) {
 	// afterReg emits the C11 specification probe for an accepted registration: a change journaled for the key just
 	// registered must be visible through BOTH lookups (name/index path and slot/offset/type).
 	fkCls := map[string]string{} // account|slot|off|type -> class of the first registration of that key
+	anyConflict := false         // some accepted registration of this history is in a conflict class of known finding D14
 	afterReg := func(g reg, parentKey string, parentFk string, name []byte) {
 		rec := childRec{hexNatU(g.s), offOf(g.o), hexHash(g.t)}
 		fk := hexAddr(g.a) + "|" + rec.slot + "|" + rec.off + "|" + rec.typ
@@ -229,6 +230,11 @@ func genTracerCase(r *Rng, em *Emitter, length int, al *tracerAlphabet) {
 		} else if fp, ok := firstPath[fk]; ok && bytesList(fp) != bytesList(g.path) {
 			cls = "same-key-other-path"
 		}
+		// a key under a parent that is itself in a conflict class shares the parent's fate; so does its re-registration (the class
+		// remembered for the name is the adjusted one)
+		if pc, ok := fkCls[parentFk]; ok && (cls == "clean" || cls == "re-registration") && pc != "clean" && pc != "re-registration" {
+			cls = "under-conflicted-parent"
+		}
 		if _, ok := byName[parentKey+"|"+string(name)]; !ok {
 			byName[parentKey+"|"+string(name)] = rec
 			clsOf[parentKey+"|"+string(name)] = cls
@@ -236,8 +242,8 @@ func genTracerCase(r *Rng, em *Emitter, length int, al *tracerAlphabet) {
 		if _, ok := bySO[parentKey+"|"+rec.slot+"|"+rec.off]; !ok {
 			bySO[parentKey+"|"+rec.slot+"|"+rec.off] = rec.typ
 		}
-		if pc, ok := fkCls[parentFk]; ok && cls == "clean" && pc != "clean" && pc != "re-registration" {
-			cls = "under-conflicted-parent"
+		if cls != "clean" && cls != "re-registration" {
+			anyConflict = true
 		}
 		if _, ok := firstPath[fk]; !ok {
 			firstPath[fk] = g.path
@@ -298,7 +304,9 @@ func genTracerCase(r *Rng, em *Emitter, length int, al *tracerAlphabet) {
 				}
 			}
 			pv := "ok"
-			if k != nil && !wasReg {
+			if k != nil && !wasReg && !anyConflict {
+				// (once a registration of the history is in one of D14's conflict classes, the flat index and the name tree
+				// disagree about parents, and this bookkeeping of paths is no longer what the code does)
 				pv = "resolves_a_path_that_was_never_registered"
 			}
 			// (the converse fails inside the conflict classes of known finding D14 and is left to S both-see)
